@@ -443,6 +443,17 @@ def balanced_parens(s):
             if d < 0: return False
     return d == 0
 
+def local_decls(body):
+    """[name, type] of every local variable declared in a function body, in source order (lambdas excluded)"""
+    out = []
+    def walk(n):
+        if not isinstance(n, dict): return
+        if n.get('kind') == 'LambdaExpr': return
+        if n.get('kind') == 'VarDecl' and n.get('name'): out.append([n['name'], tstr(n['type'])])
+        for c in n.get('inner', []): walk(c)
+    walk(body)
+    return out
+
 class FnEmitter:
     """emits one function"""
     def __init__(self, gen, fn, tu):
@@ -460,9 +471,16 @@ class FnEmitter:
             # contracts mention parameters by name; the names the contract was written against are recorded in specs/params.json.  If the code renamed
             # parameters (same number, same order) the contract text follows the renaming - a renamed parameter is not a change of behaviour.
             was = gen.recorded_params.get(fn.cname); now = [p.get('name') for p in fn.params]
+            ren = {}
             if was and len(was) == len(now) and was != now and all(now) and all(was):
-                import copy
                 ren = {a: b for a, b in zip(was, now) if a != b}
+            # the same for local variables (invariants and ghost code mention them): same number of locals, same types, same order of declaration
+            lwas = gen.recorded_locals.get(fn.cname); lnow = local_decls(fn.body) if fn.body else []
+            if lwas and len(lwas) == len(lnow) and [t for _, t in lwas] == [t for _, t in lnow] and [n_ for n_, _ in lwas] != [n_ for n_, _ in lnow]:
+                for (a, _), (b, _) in zip(lwas, lnow):
+                    if a != b and a not in ren: ren[a] = b
+            if ren and len(set(ren.values())) == len(ren):
+                import copy
                 def sub(t):
                     t = re.sub(r'\b(' + '|'.join(map(re.escape, ren)) + r')\b', lambda m_: '\x00' + m_.group(1) + '\x00', t)
                     return re.sub(r'\x00([^\x00]+)\x00', lambda m_: ren[m_.group(1)], t)
@@ -1503,6 +1521,7 @@ class Generator:
         self.report = {'translated': [], 'skipped': [], 'excluded': []}
         self.loop_invs = {}
         self.recorded_params = {}
+        self.recorded_locals = {}
         self.used_specs = set()
         self.helper_protos = collections.OrderedDict(); self.helper_bodies = collections.OrderedDict()
         self.pending_helpers = []
@@ -1987,7 +2006,8 @@ def run(ast_dir, spec_paths, excluded_path, out_c, out_map, out_report, layouts_
         tu = TU(ctx, p); tu.index_all(load_docs(p)); tus.append(tu)
     gen = Generator(ctx, fnspecs, excluded)
     pj = os.path.join(os.path.dirname(os.path.abspath(spec_paths[0])), 'params.json') if spec_paths else None
-    if pj and os.path.exists(pj): gen.recorded_params = json.load(open(pj))
+    if pj and os.path.exists(pj):
+        rec = json.load(open(pj)); gen.recorded_params = rec.get('params', rec); gen.recorded_locals = rec.get('locals', {})
     gen.assign_names()
     gen.known_cnames = set(f.cname for f in ctx.funcs.values() if f.cname)
     # translate functions first (this also discovers the vector models that are needed)
@@ -2090,7 +2110,7 @@ def run(ast_dir, spec_paths, excluded_path, out_c, out_map, out_report, layouts_
         harnesses = [h for h in harnesses if h['enforce'] != nm]
         for h in harnesses: h['replace'] = [x for x in h['replace'] if x != nm]
     json.dump({'lines': linemap, 'harnesses': harnesses, 'slices': slices, 'loop_invariants': gen.loop_invs}, open(out_map, 'w'), indent=0)
-    rep = {'renamed_parameters': gen.report.get('renamed_parameters', []), 'param_names': {f.cname: [p.get('name') for p in f.params] for f in ctx.funcs.values() if f.cname and f.cname in fnspecs}, 'ghost_stripped': sorted(strip_ghost), 'unused_loop_contracts': gen.report.get('unused_loop_contracts', []), 'helper_specs': helper_specs, 'dropped_helper_contracts': dropped, 'translated': gen.report['translated'], 'skipped': gen.report['skipped'], 'excluded': gen.report['excluded'],
+    rep = {'renamed_parameters': gen.report.get('renamed_parameters', []), 'param_names': {'params': {f.cname: [p.get('name') for p in f.params] for f in ctx.funcs.values() if f.cname and f.cname in fnspecs}, 'locals': {f.cname: local_decls(f.body) for f in ctx.funcs.values() if f.cname and f.cname in fnspecs and f.body and local_decls(f.body)}}, 'ghost_stripped': sorted(strip_ghost), 'unused_loop_contracts': gen.report.get('unused_loop_contracts', []), 'helper_specs': helper_specs, 'dropped_helper_contracts': dropped, 'translated': gen.report['translated'], 'skipped': gen.report['skipped'], 'excluded': gen.report['excluded'],
            'spec_without_target': missing, 'n_records': len(ctx.records), 'n_enums': len(ctx.enums),
            'cnames': {f.cname: {'q': f.q, 'type': f.type_str, 'has_body': f.body is not None} for f in ctx.funcs.values() if f.cname}}
     for nm in gen.helper_protos: rep['cnames'][nm] = {'q': nm + ' (generated helper)', 'type': gen.helper_protos[nm], 'has_body': True}
